@@ -204,7 +204,7 @@ module.exports = mk({
   },
   bound: (tier) => ({ layout_file_comments_deviations_k: tier === 'thorough' ? 3 : 1, layouts: Object.keys(LAYOUTS).length, files: FILES.length }),
   alphabets: () => ({ layouts: Object.keys(LAYOUTS), files: FILES }),
-  rule: 'leaf = program of families A,B,C,M (as written) or representative program x layout transform (line breaks after operators / before dots, CRLF, tabs, leading lines, BMP comments and strings on the same line) x file name x comments setting (k deviations); non-trivial = file modified (a map exists); distinct by (text, config, file)',
+  rule: 'leaf = program of families A,B,C,M (as written) or representative program x layout transform (line breaks after operators / before dots, CRLF, tabs, leading lines, BMP comments and strings on the same line) x file name x comments setting (k deviations), references to 8 kinds of maps at 6 positions, file sizes 63..1025 KiB around every power of two (identifier rules only); non-trivial = file modified (a map exists); distinct by (text, config, file)',
   explanation: 'explicit enumeration; oracle = independent VLQ decoder + global greatest-lower-bound lookup over the decoded trailer: sources == [basename], every segment inside the input, every copied identifier (paired with its input node by the lock-step walk) maps to its exact original line/column, every segment inside a statement maps into the input line span of that statement, every statement and every injected let has a mapping of its own',
   assumptions: ['columns are UTF-16 code units (what swc emits and V8 reports); astral characters are not generated', 'base name is taken with POSIX semantics']
 })
